@@ -25,8 +25,10 @@ type verifSide struct {
 	idx       bool
 	idxUnique bool
 	idxDesc   bool
-	idxPred   int // index attributes (group 5): 0 none, 1 (b > 0), 2 (b > 1)
-	idxIncl   int // 0 none, 1 INCLUDE (c), 2 INCLUDE (c, b)
+	idxX      int  // expression part (group 6): 0 none, 1 (b + 1), 2 (b + 2)
+	idxXDesc  bool // its direction
+	idxPred   int  // index attributes (group 5): 0 none, 1 (b > 0), 2 (b > 1)
+	idxIncl   int  // 0 none, 1 INCLUDE (c), 2 INCLUDE (c, b)
 	idxHash   bool
 	pk        bool
 	fk        bool
@@ -51,6 +53,16 @@ func verifSideOf(tag string, group int) verifSide {
 		s.fk = verifChoice(tag+"_fk", 2) == 1
 		s.chk = verifChoice(tag+"_chk", 2) == 1
 		s.chkExpr = "x"
+		return s
+	}
+	if group == 6 {
+		// expression parts: a column part and an optional expression part, each with its direction
+		s.idx = true
+		s.idxDesc = verifBool(tag + "_idx_desc")
+		s.idxX = verifChoice(tag+"_idx_x", 3)
+		if s.idxX != 0 {
+			s.idxXDesc = verifBool(tag + "_idx_xdesc")
+		}
 		return s
 	}
 	if group == 5 {
@@ -152,6 +164,9 @@ func (s verifSide) table(sch *schema.Schema, ref *schema.Table, perm bool) *sche
 	if s.idx {
 		i := schema.NewIndex("i").SetUnique(s.idxUnique)
 		i.AddParts(&schema.IndexPart{C: b, Desc: s.idxDesc})
+		if s.idxX != 0 {
+			i.AddParts(&schema.IndexPart{X: &schema.RawExpr{X: []string{"", "(b + 1)", "(b + 2)"}[s.idxX]}, Desc: s.idxXDesc})
+		}
 		if s.idxPred != 0 {
 			i.AddAttrs(&IndexPredicate{P: []string{"", "(b > 0)", "(b > 1)"}[s.idxPred]})
 		}
@@ -229,6 +244,9 @@ func verifExpected(f, t verifSide) []verifWant {
 			k |= schema.ChangeUnique
 		}
 		if f.idxDesc != t.idxDesc {
+			k |= schema.ChangeParts
+		}
+		if f.idxX != t.idxX || f.idxX != 0 && f.idxXDesc != t.idxXDesc {
 			k |= schema.ChangeParts
 		}
 		if f.idxPred != t.idxPred || f.idxIncl != t.idxIncl || f.idxHash != t.idxHash {
@@ -396,6 +414,7 @@ func VerifHarness_C02_postgres_idx()     { verifC02(1, false) }
 func VerifHarness_C02_postgres_rest()    { verifC02(2, false) }
 func VerifHarness_C02_postgres_pairs()   { verifC02(3, false) }
 func VerifHarness_C02_postgres_idxattr() { verifC02(5, false) }
+func VerifHarness_C02_postgres_idxexpr() { verifC02(6, false) }
 func VerifHarness_C02_postgres_skip()    { verifC02(4, true) }
 
 func verifColByName(t *schema.Table, name string) *schema.Column {
